@@ -18,6 +18,8 @@ type accepted struct {
 	dest    bpv7.EndpointID
 	okSend  bool // a convergence layer reported a successful transmission
 	from    int  // 1: received from peer 1 (which therefore has it), 0: submitted locally
+	okDest   bool // transmitted successfully to the destination node (the node may release it)
+	okBefore bool // okDest at the end of the previous event
 }
 
 // node is a real Core plus the scripted peers around it.
@@ -26,16 +28,26 @@ type node struct {
 	dir   string
 	algo  string
 	log   []sendRec
-	peers [2]*mockCLA
-	up    [2]bool
+	peers [3]*mockCLA // peer1, peer2 and the bundles' destination node dtn://far/
+	up    [3]bool
+	epoch int // number of restarts so far
+	maxBundles int // more than two bundles per history only after prefix 3
+	restartAt []int // log positions at which the node restarted
 	acc   []*accepted
 	lastEv int
 }
 
 // delivered: a transmission of a to peer i succeeded before log position `before`.
+// isCopyOf: the transmitted bundle r is a copy of the accepted bundle a. Identity is ID plus payload: after a restart
+// the id keeper may reuse the sequence number of a bundle that has left the store, and the frozen clock of the model
+// makes the creation times coincide.
+func isCopyOf(r sendRec, a *accepted) bool {
+	return r.b.ID().Scrub() == a.id.Scrub() && bytes.Equal(payloadBytes(r.b), a.payload)
+}
+
 func (n *node) delivered(a *accepted, i int, before int) bool {
 	for _, r := range n.log[:before] {
-		if r.ok && r.peer == n.peers[i].addr && r.b.ID().Scrub() == a.id.Scrub() {
+		if r.ok && r.peer == n.peers[i].addr && isCopyOf(r, a) {
 			return true
 		}
 	}
@@ -47,6 +59,7 @@ func newNode(algo string) *node {
 	n.c = testCore(algo, n.dir)
 	n.peers[0] = newMockCLA("peer1", &n.log)
 	n.peers[1] = newMockCLA("peer2", &n.log)
+	n.peers[2] = newMockCLA("far", &n.log)
 	return n
 }
 
@@ -71,6 +84,8 @@ func (n *node) peerDisappears(i int) {
 }
 
 func (n *node) restart() {
+	n.epoch++
+	n.restartAt = append(n.restartAt, len(n.log))
 	n.c.Close()
 	n.c = testCore(n.algo, n.dir)
 	for i := range n.peers {
@@ -83,8 +98,11 @@ func (n *node) restart() {
 func (n *node) noteSends(from int) {
 	for _, r := range n.log[from:] {
 		for _, a := range n.acc {
-			if r.ok && r.b.ID().Scrub() == a.id.Scrub() {
+			if r.ok && isCopyOf(r, a) {
 				a.okSend = true
+				if r.peer == n.peers[2].addr {
+					a.okDest = true
+				}
 			}
 		}
 	}
@@ -124,66 +142,80 @@ func (n *node) checkRetention(when string) {
 	}
 }
 
-// H05_History: event histories over a real Core: application submits a bundle, a peer appears / disappears, a send
-// succeeds or fails (chosen per event), the pending-retry job fires, the store-cleaning job fires, the node
-// restarts. Same-millisecond submissions occur (the clock only moves with the ticks).
-func H05_History() {
+// H05_History: event histories over a real Core: an application submits a bundle (with or without a clock), peer 1
+// delivers a bundle, a peer or the bundles' destination node appears / disappears, a send succeeds or fails (chosen per
+// event), the pending-retry job fires, the store-cleaning job fires, the node restarts. Same-millisecond submissions
+// occur (the clock only moves with the ticks). Checked after every event: retention and pending flag of every accepted
+// bundle without a successful transmission, transmission to the destination node as soon as it is a connected peer, and
+// under epidemic routing the offer to every connected peer that does not have the bundle.
+func H05_History() { history(true, false) }
+
+// H13_History: the same histories, judged by the per-peer log of transmissions: a bundle is never handed to the peer it
+// was received from, and never again to a peer to which it was transmitted successfully before (for spray variants,
+// whose memory is not stored: before since the last restart) - whatever failures, retries, disappearances and restarts
+// happen in between. Failed direct deliveries to the destination node may be repeated.
+func H13_History() { history(false, true) }
+
+func history(check05, check13 bool) {
 	algos := []string{"epidemic", "spray", "binary_spray", "dtlsr", "prophet"}
 	n := newNode(algos[verif.Param("algo", 0)])
 	defer func() { n.c.Close() }()
 	depth := verif.Size("depth", 1, verif.Param("depth", 3))
 	// alphabet 0: the six basic events; 1: also the store-cleaning tick, a clock-less submission (zero creation time
-	// with a bundle-age block) and a bundle received from peer 1
+	// with a bundle-age block) and a bundle received from peer 1; 2: also the destination node appearing as a peer
 	nev := 6
-	if verif.Param("alphabet", 0) == 1 {
+	switch verif.Param("alphabet", 0) {
+	case 1:
 		nev = 9
+	case 2:
+		nev = 10
+	}
+	npeers := 2
+	if nev == 10 {
+		npeers = 3
 	}
 	submitted := 0
+	// prefix: events that happen before the explored part of the history (so that longer histories fit the depth)
+	switch verif.Param("prefix", 0) {
+	case 1: // peer 1 is connected and a bundle was submitted and transmitted to it
+		n.peerAppears(0)
+		n.submit(0, &submitted)
+	case 2: // both peers are connected and a bundle was submitted and transmitted to them
+		n.peerAppears(0)
+		n.peerAppears(1)
+		n.submit(0, &submitted)
+	case 3: // two bundles of one source and creation time (same millisecond, or no clock) wait in the store
+		kind := 0
+		if verif.Bool("clockless") {
+			kind = 7
+		}
+		n.submit(kind, &submitted)
+		n.submit(kind, &submitted)
+		n.maxBundles = 3
+	}
+	n.noteSends(0)
 	for step := 0; step < depth; step++ {
 		before := len(n.log)
-		for i := range n.peers {
+		for i := 0; i < npeers; i++ {
 			n.peers[i].fail = verif.Bool(nm("fail"+nm("p", i)+"s", step))
 		}
 		n.lastEv = verif.Choose(nm("ev", step), nev)
+		if mask := verif.Param("events", 0); mask != 0 {
+			// the check configuration restricts the event alphabet (bit i = event i allowed)
+			verif.Assume(mask&(1<<uint(n.lastEv)) != 0)
+		}
 		if shards := verif.Param("shards", 1); step == 0 && shards > 1 {
 			// the check configuration splits the histories by their first event over several workers
 			verif.Assume(n.lastEv%shards == verif.Param("shard", 0))
 		}
 		switch n.lastEv {
-		case 0, 7, 8: // a bundle for a remote node (not a peer) is accepted: 0 submitted by an application, 7 the same
-			// without a clock, 8 received from peer 1
+		case 0, 7, 8: // a bundle for a remote node is accepted: 0 submitted by an application, 7 the same without a
+			// clock, 8 received from peer 1
 			if n.lastEv == 8 && !n.up[0] {
 				n.lastEv = -1
 				break
 			}
-			if submitted < 2 {
-				payload := []byte{byte('A' + submitted)}
-				var b bpv7.Bundle
-				switch n.lastEv {
-				case 0:
-					b = dataBundle("dtn://this/app", "dtn://far/inbox", 0)
-				case 7:
-					var err error
-					b, err = bpv7.Builder().Source("dtn://this/app").Destination("dtn://far/inbox").CreationTimestampEpoch().
-						Lifetime("1h").BundleAgeBlock(0).PayloadBlock(payload).Build()
-					verif.Assume(err == nil)
-				case 8:
-					b = dataBundle("dtn://origin/app", "dtn://far/inbox", uint64(submitted), func(bl *bpv7.BundleBuilder) { bl.PreviousNodeBlock(n.peers[0].peer) })
-				}
-				b.CanonicalBlocks[len(b.CanonicalBlocks)-1].Value = bpv7.NewPayloadBlock(payload)
-				if n.lastEv == 8 {
-					inject(n.peers[0], b)
-				} else {
-					n.c.SendBundle(&b)
-					settle()
-				}
-				a := &accepted{id: b.ID(), payload: payload, dest: b.PrimaryBlock.Destination}
-				if n.lastEv == 8 {
-					a.from = 1
-				}
-				n.acc = append(n.acc, a)
-				submitted++
-			}
+			n.submit(n.lastEv, &submitted)
 		case 1, 2:
 			if n.up[n.lastEv-1] {
 				n.lastEv = -1 // already connected: nothing happens
@@ -191,45 +223,46 @@ func H05_History() {
 				n.peerAppears(n.lastEv - 1)
 			}
 		case 3:
-			n.peerDisappears(verif.Choose(nm("which", step), 2))
+			n.peerDisappears(verif.Choose(nm("which", step), npeers))
 		case 4: // pending-retry tick
 			time.Sleep(10*time.Second + time.Millisecond)
 		case 5: // orderly restart
 			n.restart()
 		case 6: // store-cleaning tick (every ten minutes; the bundles' lifetime is one hour)
 			time.Sleep(10*time.Minute + time.Millisecond)
-		}
-		n.noteSends(before)
-		n.checkRetention("after event")
-		// epidemic: on a retry tick and whenever a peer appears, every connected peer that does not have a stored
-		// bundle yet (no successful transmission to it) is offered the bundle
-		if ev := n.lastEv; n.algo == "epidemic" && (ev == 4 || ev == 1 || ev == 2 || ev == 6) {
-			for _, a := range n.acc {
-				for i := range n.peers {
-					if !n.up[i] || n.delivered(a, i, before) || a.from == i+1 {
-						continue
-					}
-					offered := false
-					for _, r := range n.log[before:] {
-						if r.peer == n.peers[i].addr && r.b.ID().Scrub() == a.id.Scrub() {
-							offered = true
-						}
-					}
-					verif.Assert(offered, "epidemic: a retry offers a stored bundle to every connected peer that does not have it yet")
-				}
+		case 9: // the destination node of the bundles appears as a peer
+			if n.up[2] {
+				n.lastEv = -1
+			} else {
+				n.peerAppears(2)
 			}
 		}
+		n.noteSends(before)
+		if verif.Param("trace", 0) == 1 {
+			for _, r := range n.log[before:] {
+				verif.Observe(nm("sends", step), r.peer, r.ok, r.b.PrimaryBlock.CreationTimestamp.SequenceNumber(), r.at.Unix())
+			}
+		}
+		if check05 {
+			n.checkRetention("after event")
+			n.checkOffers(before)
+		}
+		if check13 {
+			n.checkNoRepeat(before)
+		}
 	}
-	// finally: every peer that is up and did not get a bundle successfully must have been offered it (epidemic)
-	if n.algo == "epidemic" {
+	// finally: every peer that is up and did not get a bundle successfully must have been offered it (epidemic) -
+	// unless the destination node itself is connected: Core.forward then bypasses the routing algorithm (direct
+	// delivery), also while the transmissions to the destination fail; the check does not demand replication then
+	if check05 && n.algo == "epidemic" && !n.up[2] {
 		for _, a := range n.acc {
-			for i := range n.peers {
-				if !n.up[i] || a.from == i+1 {
+			for i := 0; i < 2; i++ {
+				if !n.up[i] || a.from == i+1 || a.okDest {
 					continue
 				}
 				offered := false
 				for _, r := range n.log {
-					if r.peer == n.peers[i].addr && r.b.ID().Scrub() == a.id.Scrub() {
+					if r.peer == n.peers[i].addr && isCopyOf(r, a) {
 						offered = true
 					}
 				}
@@ -238,6 +271,103 @@ func H05_History() {
 		}
 	}
 	verif.Reach("end")
+}
+
+// submit: a bundle for dtn://far/inbox is accepted: kind 0 submitted by an application, 7 the same without a clock
+// (zero creation time and a bundle-age block), 8 received from peer 1. At most two bundles per history (three after prefix 3).
+func (n *node) submit(kind int, submitted *int) {
+	if *submitted >= 2 && *submitted >= n.maxBundles {
+		return
+	}
+	payload := []byte{byte('A' + *submitted)}
+	var b bpv7.Bundle
+	switch kind {
+	case 0:
+		b = dataBundle("dtn://this/app", "dtn://far/inbox", 0)
+	case 7:
+		var err error
+		b, err = bpv7.Builder().Source("dtn://this/app").Destination("dtn://far/inbox").CreationTimestampEpoch().
+			Lifetime("1h").BundleAgeBlock(0).PayloadBlock(payload).Build()
+		verif.Assume(err == nil)
+	case 8:
+		b = dataBundle("dtn://origin/app", "dtn://far/inbox", uint64(*submitted), func(bl *bpv7.BundleBuilder) { bl.PreviousNodeBlock(n.peers[0].peer) })
+	}
+	b.CanonicalBlocks[len(b.CanonicalBlocks)-1].Value = bpv7.NewPayloadBlock(payload)
+	if kind == 8 {
+		inject(n.peers[0], b)
+	} else {
+		n.c.SendBundle(&b)
+		settle()
+	}
+	a := &accepted{id: b.ID(), payload: payload, dest: b.PrimaryBlock.Destination}
+	if kind == 8 {
+		a.from = 1
+	}
+	n.acc = append(n.acc, a)
+	*submitted++
+}
+
+// checkOffers: what had to be transmitted during the last event.
+func (n *node) checkOffers(before int) {
+	ev := n.lastEv
+	sentTo := func(a *accepted, i int) bool {
+		for _, r := range n.log[before:] {
+			if r.peer == n.peers[i].addr && isCopyOf(r, a) {
+				return true
+			}
+		}
+		return false
+	}
+	for _, a := range n.acc {
+		if a.okBefore {
+			continue // released before this event
+		}
+		// the destination node is a connected peer: the bundle is transmitted to it when it appears, when the bundle is
+		// accepted, and on every retry
+		if n.up[2] && (ev == 9 || ev == 4 || ev == 6 || ((ev == 0 || ev == 7 || ev == 8) && a == n.acc[len(n.acc)-1])) {
+			verif.Assert(sentTo(a, 2), "a bundle is transmitted to its destination node as soon as that node is a connected peer")
+		}
+		// epidemic: on a retry tick and whenever a peer appears, every connected peer that does not have a stored
+		// bundle yet (no successful transmission to it) is offered the bundle - unless the destination itself is
+		// connected (direct delivery bypasses the algorithm)
+		if n.algo == "epidemic" && !n.up[2] && (ev == 4 || ev == 1 || ev == 2 || ev == 6) {
+			for i := 0; i < 2; i++ {
+				if !n.up[i] || n.delivered(a, i, before) || a.from == i+1 {
+					continue
+				}
+				verif.Assert(sentTo(a, i), "epidemic: a retry offers a stored bundle to every connected peer that does not have it yet")
+			}
+		}
+	}
+	for _, a := range n.acc {
+		a.okBefore = a.okDest
+	}
+}
+
+// checkNoRepeat: C13 on the transmissions of the last event.
+func (n *node) checkNoRepeat(before int) {
+	ram := n.algo == "spray" || n.algo == "binary_spray"
+	for i := before; i < len(n.log); i++ {
+		r := n.log[i]
+		for _, a := range n.acc {
+			if !isCopyOf(r, a) {
+				continue
+			}
+			if a.from == 1 {
+				verif.Assert(r.peer != n.peers[0].addr, "a bundle is never sent back to the peer it came from")
+			}
+			since := 0
+			if ram && len(n.restartAt) > 0 {
+				since = n.restartAt[len(n.restartAt)-1]
+			}
+			for j := since; j < i; j++ {
+				q := n.log[j]
+				if q.ok && q.peer == r.peer && isCopyOf(q, a) {
+					verif.Assert(false, "a bundle is never transmitted again to a peer that already received it successfully")
+				}
+			}
+		}
+	}
 }
 
 // H05_SameMs: two application bundles created in the same millisecond are both retained.
@@ -258,5 +388,50 @@ func H05_SameMs() {
 		verif.Observe("key", p.Id)
 	}
 	verif.Assert(len(pend) == 2, "two bundles submitted in the same millisecond are both in the store")
+	verif.Reach("end")
+}
+
+// H05_ConcurrentFailures: "when several transmissions of one bundle fail at the same moment": on a real Core (epidemic,
+// prophet, dtlsr-broadcast) with two connected peers a bundle is submitted and both transmissions fail; Core.forward
+// reports each failure from its own goroutine, and the scheduler switches goroutines at every store call, so the two
+// read-modify-write sequences on the bundle's store item interleave. Afterwards the bundle is still stored and pending,
+// and on the next retry it is offered to both peers again (a lost update would leave one of them marked as served).
+func H05_ConcurrentFailures() {
+	algos := []string{"epidemic", "prophet"}
+	n := newNode(algos[verif.Choose("algo", len(algos))])
+	defer func() { n.c.Close() }()
+	n.peerAppears(0)
+	n.peerAppears(1)
+	if p, ok := n.c.routing.(*Prophet); ok {
+		far := bpv7.MustNewEndpointID("dtn://far/inbox")
+		for i := 0; i < 2; i++ {
+			p.peerPredictabilities[n.peers[i].peer] = map[bpv7.EndpointID]float64{far: 0.5}
+		}
+	}
+	n.peers[0].fail, n.peers[1].fail = true, true
+	submitted := 0
+	n.submit(0, &submitted)
+	n.noteSends(0)
+	a := n.acc[0]
+	first := len(n.log)
+	attempts := 0
+	for _, r := range n.log {
+		if r.b.ID().Scrub() == a.id.Scrub() {
+			attempts++
+			verif.Assert(!r.ok, "the transmissions fail")
+		}
+	}
+	verif.Assert(attempts == 2, "both transmissions were attempted")
+	n.checkRetention("after two failures at the same moment")
+	time.Sleep(10*time.Second + time.Millisecond) // pending-retry tick
+	for i := 0; i < 2; i++ {
+		offered := false
+		for _, r := range n.log[first:] {
+			if r.peer == n.peers[i].addr && r.b.ID().Scrub() == a.id.Scrub() {
+				offered = true
+			}
+		}
+		verif.Assert(offered, "after two transmissions failed at the same moment the bundle is offered to both peers again")
+	}
 	verif.Reach("end")
 }
